@@ -253,7 +253,12 @@ func (sim *BmQSimulator) BmMatrixFromOperation(op []*bmline.BasmLine) (*bmmatrix
 				for i, arg := range op[fundLine].Elements {
 					argName := arg.GetValue()
 					if _, ok := sim.qbitsNum[argName]; ok {
-						localOrder[i] = sim.qbitsNum[argName]
+						// The position the qbit currently has, earlier swaps of this layer may have moved it
+						for pos, name := range localQBits {
+							if name == argName {
+								localOrder[i] = pos
+							}
+						}
 					} else {
 						// Leaving out the arguments that are not qbits
 						localOrder[i] = -1
